@@ -1130,3 +1130,134 @@ def real_match_namespace(namespaces, qname):
     v = XmlVar.__new__(XmlVar)
     v.namespaces = tuple(namespaces)
     return {"ok": bool(v._match_namespace(qname))}
+
+
+# --------------------------------------------------------------------------
+# conversion failures over the whole converter family (types and formats the binding-layer
+# universes do not have): real dataclasses, one per value type
+# --------------------------------------------------------------------------
+def _conv_types():
+    import enum
+    from decimal import Decimal
+
+    from xsdata.models.datatype import XmlDate, XmlDateTime, XmlDuration, XmlPeriod, XmlTime
+
+    Color = enum.Enum("Color", {"RED": "red", "BLUE": "blue"})
+    Level = enum.Enum("Level", {"LOW": 1, "HIGH": 2})
+    junk = ["zz!", "é", "café", "12xé", "€€€€", "x\U0001f600", "٣x", "~"]
+    return {
+        # key: (python type, extra metadata, a good lexical value, definitely invalid lexical values)
+        "hex": (bytes, {"format": "base16"}, "cafe", junk + ["abc", "0g", "éA", "café"]),
+        "b64": (bytes, {"format": "base64"}, "YQ==", junk + ["a", "ab=c", "éA==", "YQ=é", "!!!!"]),
+        "int": (int, {}, "7", junk + ["1.5", "1_0x", "--1"]),
+        "float": (float, {}, "1.5", junk + ["1.2.3", "1,5", "e5"]),
+        "decimal": (Decimal, {}, "2.50", junk + ["1,5", "1e", "..1"]),
+        "bool": (bool, {}, "true", junk + ["yes", "truee", "2"]),
+        "date": (XmlDate, {}, "2020-01-02", junk + ["2020-13-01", "20200102", "2020-02-30", "yesterday"]),
+        "datetime": (XmlDateTime, {}, "2020-01-02T03:04:05", junk + ["2020-01-02", "2020-01-02T25:00:00", "2020-01-02 03:04:05x"]),
+        "time": (XmlTime, {}, "03:04:05", junk + ["25:00:00", "3:4:5", "03:04"]),
+        "duration": (XmlDuration, {}, "P1D", junk + ["1D", "P", "PT", "P1S"]),
+        "gyear": (XmlPeriod, {}, "2020", junk + ["20", "--13", "2020-1"]),
+        "enum": (Color, {}, "red", junk + ["green", "RED", "re d"]),
+        "intenum": (Level, {}, "1", junk + ["3", "LOW", "1.0"]),
+    }
+
+
+_CONV = {}
+
+
+def conv_classes(key):
+    """(Root class, Txt class) for a value type: attribute, element, list element, tokens attribute, simple-content child"""
+    if key not in _CONV:
+        tp, extra, good, bad = _conv_types()[key]
+        txt = make_dataclass(f"C10Txt_{key}", [
+            ("value", Optional[tp], field(default=None, metadata={"type": "Text", **extra})),
+            ("n", Optional[str], field(default=None, metadata={"type": "Attribute"}))])
+        root = make_dataclass(f"C10Conv_{key}", [
+            ("a", Optional[tp], field(default=None, metadata={"type": "Attribute", **extra})),
+            ("e", Optional[tp], field(default=None, metadata={"type": "Element", **extra})),
+            ("l", list[tp], field(default_factory=list, metadata={"type": "Element", **extra})),
+            ("k", list[tp], field(default_factory=list, metadata={"type": "Attribute", "tokens": True, **extra})),
+            ("c", Optional[txt], field(default=None, metadata={"type": "Element"})),
+            ("s", Optional[str], field(default=None, metadata={"type": "Element"}))])
+        for c in (txt, root):
+            c.__module__ = __name__
+            globals()[c.__name__] = c
+        _CONV[key] = (root, txt, good, bad)
+    return _CONV[key]
+
+
+CONV_POSITIONS = ("a", "e", "l0", "l1", "k", "c")
+CONV_ROUTES = ("xml-native", "xml-lxml", "xml-events", "dict", "json")
+
+
+def conv_document(key, pos, bad):
+    """(xml text, dict) of a document of the family with `bad` at `pos`, good values elsewhere"""
+    from xml.sax.saxutils import escape, quoteattr
+
+    root, txt, good, _ = conv_classes(key)
+    v = {p: good for p in CONV_POSITIONS}
+    v["k"] = f"{good} {good}"
+    if pos == "k":
+        v["k"] = f"{good} {bad}"
+    else:
+        v[pos] = bad
+    name = root.__name__
+    xml = (f"<{name} a={quoteattr(v['a'])} k={quoteattr(v['k'])}><e>{escape(v['e'])}</e><l>{escape(v['l0'])}</l><l>{escape(v['l1'])}</l>"
+           f"<c n=\"x\">{escape(v['c'])}</c><s>plain</s></{name}>")
+    data = {"a": v["a"], "e": v["e"], "l": [v["l0"], v["l1"]], "k": v["k"].split(" "), "c": {"value": v["c"], "n": "x"}, "s": "plain"}
+    return xml, data
+
+
+def conv_parse(key, pos, bad, config, route):
+    """outcome of the real parse: {'err': name} or {'ok': {'at': value found at the position, 'warnings': n, 'rest_ok': bool}}"""
+    from xsdata.exceptions import ConverterWarning
+    from xsdata.formats.dataclass.context import XmlContext
+    from xsdata.formats.dataclass.parsers import DictDecoder, JsonParser, XmlParser
+    from xsdata.formats.dataclass.parsers.config import ParserConfig
+    from xsdata.formats.dataclass.parsers.handlers import LxmlEventHandler, XmlEventHandler
+
+    root, txt, good, _ = conv_classes(key)
+    xml, data = conv_document(key, pos, bad)
+    dflt = ParserConfig()
+    cfg = ParserConfig(**{k: config.get(k, getattr(dflt, k)) for k in FLAGS})
+    ctx = _CONV_CTX.setdefault(key, XmlContext())
+    with warnings.catch_warnings(record=True) as w:
+        warnings.simplefilter("always")
+        try:
+            if route == "xml-native":
+                obj = XmlParser(context=ctx, config=cfg, handler=XmlEventHandler).from_bytes(xml.encode("utf-8"), root)
+            elif route == "xml-lxml":
+                obj = XmlParser(context=ctx, config=cfg, handler=LxmlEventHandler).from_string(xml, root)
+            elif route == "xml-events":
+                obj = XmlParser(context=ctx, config=cfg).from_string(xml, root)
+            elif route == "dict":
+                obj = DictDecoder(context=ctx, config=cfg).decode(copy.deepcopy(data), root)
+            else:
+                obj = JsonParser(context=ctx, config=cfg).from_string(json.dumps(data), root)
+        except Exception as e:  # noqa: BLE001
+            return B.classify_exc(e)
+    n = sum(1 for x in w if issubclass(x.category, ConverterWarning))
+    at = {"a": obj.a, "e": obj.e, "k": obj.k, "c": obj.c.value if obj.c is not None else None,
+          "l0": obj.l[0] if len(obj.l) > 0 else None, "l1": obj.l[1] if len(obj.l) > 1 else None}[pos]
+    ref = conv_reference(key)
+    others = {p: x for p, x in (("a", obj.a), ("e", obj.e), ("l0", obj.l[0] if obj.l else None), ("l1", obj.l[1] if len(obj.l) > 1 else None),
+                                ("k", obj.k), ("c", obj.c.value if obj.c else None)) if p != pos}
+    rest_ok = all(others[p] == ref[p] for p in others) and obj.s == "plain"
+    return {"ok": {"at": at if isinstance(at, (str, list)) else repr(at), "warnings": n, "rest_ok": rest_ok}}
+
+
+_CONV_REF = {}
+_CONV_CTX = {}
+
+
+def conv_reference(key):
+    """the values of the all-good document (what the other positions must still hold)"""
+    if key not in _CONV_REF:
+        from xsdata.formats.dataclass.parsers import XmlParser
+
+        root, txt, good, _ = conv_classes(key)
+        xml, _ = conv_document(key, "s_none", good)
+        obj = XmlParser().from_string(xml, root)
+        _CONV_REF[key] = {"a": obj.a, "e": obj.e, "l0": obj.l[0], "l1": obj.l[1], "k": obj.k, "c": obj.c.value}
+    return _CONV_REF[key]
